@@ -5,7 +5,7 @@ import random
 from .. import killdriver
 from ..common import Outcome, pmap, validate_all, known_findings, TRACE_FIELDS
 from ..envctl import MachineryError
-from .conc import op, KA, KB, F1, F2, F3, report
+from .conc import op, KA, KB, F1, F2, F3, report, design_level
 
 BIGSTREAM = 200000 + 999 * 100 + 9      # ~1 MiB bytes value (several write chunks when streamed with read=True? no: one)
 
@@ -89,6 +89,7 @@ def run(prop, tier, seed):
             cfg = dict(policy='lru' if stats else 'lrs', cull=0, limit=2 ** 30, stats=stats, now=1)
             jobs.append((cfg, name, init, ops, tid))
             tid += 1000
+    design_level(out, 'C07', tier)
     res = pmap(_enum, jobs, procs=14)
     traces = [t for lst in res for t in lst]
     points = sum(lst[0]['points'] for lst in res)
